@@ -288,12 +288,22 @@ lzma_code(lzma_stream *strm, lzma_action action)
 		return LZMA_PROG_ERROR;
 	}
 
+	// next_in and next_out are allowed to be NULL when the respective
+	// size is zero. The coders may do pointer arithmetic like in + in_pos
+	// even when there is nothing to read or write. To avoid null
+	// pointer + 0 (undefined behavior) in them, pass pointers to dummy
+	// buffers instead of NULL.
+	static const uint8_t dummy_in = 0;
+	static uint8_t dummy_out;
+	const uint8_t *in = strm->next_in != NULL ? strm->next_in : &dummy_in;
+	uint8_t *out = strm->next_out != NULL ? strm->next_out : &dummy_out;
+
 	size_t in_pos = 0;
 	size_t out_pos = 0;
 	lzma_ret ret = strm->internal->next.code(
 			strm->internal->next.coder, strm->allocator,
-			strm->next_in, &in_pos, strm->avail_in,
-			strm->next_out, &out_pos, strm->avail_out, action);
+			in, &in_pos, strm->avail_in,
+			out, &out_pos, strm->avail_out, action);
 
 	// Updating next_in and next_out has to be skipped when they are NULL
 	// to avoid null pointer + 0 (undefined behavior). Do this by checking
